@@ -9,10 +9,6 @@ back ends, `loads` = the evaluation discipline of each target language).
 namespace Pyrtma.C15
 open Pyrtma.Emit Pyrtma.Layout
 
-/-- the parser's own ctypes table knows every native type (`NativeType.name`) and `char` (padding) -/
-def TablesCt (T : Tables) : Prop :=
-  (∀ r ∈ T.natives, T.parserCt.contains r.2.1 = true) ∧ T.parserCt.contains T.charName = true
-
 theorem check_error_alignment (ap : Bool) {fs : List Fld} (hw : wfInput fs = true) (hne : fs ≠ []) {e : Layout.Err}
     (h : checkAlignment ap fs = .error e) : e = .alignment := by
   cases hl : lead ap fs 0 with
@@ -29,28 +25,6 @@ theorem check_error_alignment (ap : Bool) {fs : List Fld} (hw : wfInput fs = tru
     · split at h
       · simp at h; exact h.symm
       · simp at h
-
-theorem ctOk_true {T : Tables} (hC : TablesCt T) (R : Reg) (fs : List FieldR) : ctOk T R fs = true := by
-  unfold ctOk
-  simp only [List.all_eq_true]
-  intro f _
-  split
-  · rename_i k hk
-    unfold ctKey at hk
-    split at hk
-    · cases hn : assoc T.natives f.ty with
-      | none => simp [hn] at hk
-      | some v => simp [hn] at hk; subst hk; exact hC.1 _ (assoc_mem hn)
-    · split at hk
-      · rename_i a _
-        split at hk
-        · simp at hk
-        · cases hn : assoc T.natives a.target with
-          | none => simp [hn] at hk
-          | some v => simp [hn] at hk; subst hk; exact hC.1 _ (assoc_mem hn)
-      · simp at hk
-    · simp at hk
-  · rfl
 
 /-- `validate_msg_def` on a non-empty, well-formed field list never ends in an internal error -/
 theorem layoutDef_not_internal {T : Tables} (hC : TablesCt T) {R : Reg} {ap : Bool} {fs : List FieldR}
@@ -120,6 +94,7 @@ theorem compile_total {T : Tables} (hT : TablesWf T) (hC : TablesCt T) (ap : Boo
       | hostId n v => simp [elabItem] at he
       | moduleId n v => simp [elabItem] at he
       | signal n id h => simp only [elabItem] at he; split at he <;> simp at he
+      | reserved n id h => simp only [elabItem] at he; split at he <;> simp at he
       | alias n t =>
         simp only [elabItem] at he
         unfold elabAlias at he
